@@ -33,6 +33,8 @@ PROPS["C03"] = dict(pkg="chain", level="fault_enumeration", stages=[
 
 PROPS["C19"] = dict(pkg="chain", level="exploration", stages=[
     direct("prune-crash", "TestC19PruneCrash"),
+    direct("concurrent", "TestC19Concurrent", quick=dict(shards=4, timeout=900), thorough=dict(shards=8, timeout=3600)),
+    direct("concurrent-race", "TestC19Concurrent", race=True, tiers=["thorough"]),
     rapid("rapid", "TestC19", dict(shards=16, checks=120), dict(shards=16, checks=4000, timeout=7000)),
 ])
 
